@@ -33,6 +33,18 @@ def app(environ, start_response):
                                              environ.get("RAW_URI"))).encode("latin-1") + ident()
         start_response("200 OK", [("Content-Type", "text/plain"), ("Content-Length", str(len(body)))])
         return [body]
+    if path == "/hid":
+        # a response whose status line and header lines all carry the request's id, after some computing (so that handler
+        # threads are pre-empted while they produce their responses)
+        rid = q.get("id", ["0"])[0]
+        t_end = time.perf_counter() + float(q.get("spin", ["5"])[0]) / 1000.0
+        x = 0
+        while time.perf_counter() < t_end:
+            x += 1
+        body = ("id=%s" % rid).encode()
+        start_response("200 R%s" % rid, [("X-R%s-%d" % (rid, i), "v%s" % rid) for i in range(int(q.get("n", ["200"])[0]))] +
+                       [("Content-Length", str(len(body)))])
+        return [body]
     if path == "/sleep":
         time.sleep(float(q.get("t", ["0.1"])[0]))
     elif path == "/hang":
